@@ -32,26 +32,37 @@ static _Bool op_in(const char *op, size_t op_len, const char *alts)
     }
     return 0;
 }
-int g_reported; _Bool g_result;
-#define REPORT(r) do { g_reported++; g_result = (r); } while (0)
+int g_reported; _Bool g_result; char g_rep_op[4];
+#define REPORT(r) do { g_reported++; g_result = (r); for (int i_ = 0; i_ < 4; i_++) g_rep_op[i_] = i_ < (int)op_len ? op[i_] : 0; } while (0)
+/* operand selection of comparison(): the two operands are the ids 1 (left) and 2 (right) */
+#define KNOWN(e) ((e) == 1 ? known1 : known2)
 '''
 
 HARNESS = r'''
-bigint g_in_num1, g_in_num2, g_in_x, g_in_kiv, g_in_v; int g_in_op, g_in_bitop, g_in_unsigned, g_in_i, g_in_tt, g_in_tsign, g_in_lbits, g_in_lsign, g_in_bits;
+bigint g_in_num1, g_in_num2, g_in_x, g_in_kiv, g_in_v; int g_in_op, g_in_bitop, g_in_unsigned, g_in_known1, g_in_known2, g_in_i, g_in_tt, g_in_tsign, g_in_lbits, g_in_lsign, g_in_bits;
 static const char *OPS[7] = {"==", "!=", "<", "<=", ">", ">=", "<=>"};
 static _Bool c_cmp_s(int op, bigint a, bigint b) { return op == 0 ? a == b : op == 1 ? a != b : op == 2 ? a < b : op == 3 ? a <= b : op == 4 ? a > b : a >= b; }
 static _Bool c_cmp_u(int op, biguint a, biguint b) { return op == 0 ? a == b : op == 1 ? a != b : op == 2 ? a < b : op == 3 ? a <= b : op == 4 ? a > b : a >= b; }
+static int op_index(const char *s) { for (int k = 0; k < 7; k++) { _Bool eq = 1; for (int i = 0; i < 4; i++) { if (s[i] != OPS[k][i]) { eq = 0; break; } if (s[i] == 0) break; } if (eq) return k; } return -1; }
 void h_comparison(void) {
     bigint num1 = nondet_bigint(), num2 = nondet_bigint(), x = nondet_bigint(); int op = nondet_int(), bit = nondet_int(); _Bool uns = nondet_bool();
+    _Bool known1 = nondet_bool(), known2 = nondet_bool();      /* which operand of the comparison has a known value */
     __CPROVER_assume(num2 >= 0 && op >= 0 && op <= 6 && (bit == 0 || bit == 1));
     __CPROVER_assume(!uns || x >= 0);                 /* the other operand of | is unsigned */
-    g_in_num1 = num1; g_in_num2 = num2; g_in_x = x; g_in_op = op; g_in_bitop = bit; g_in_unsigned = uns;
-    g_reported = 0;
-    comparison_block(num1, num2, OPS[op], op == 6 ? 3 : (op <= 1 || op == 3 || op == 5) ? 2 : 1, bit ? "|" : "&", 1, uns);
+    g_in_num1 = num1; g_in_num2 = num2; g_in_x = x; g_in_op = op; g_in_bitop = bit; g_in_unsigned = uns; g_in_known1 = known1; g_in_known2 = known2;
+    g_reported = 0; int const_side = 0;
+    comparison_block(known1, known2, OPS[op], op == 6 ? 3 : (op <= 1 || op == 3 || op == 5) ? 2 : 1, num1, num2, bit ? "|" : "&", 1, uns, &const_side);
     __CPROVER_assert(g_reported <= 1, "at most one verdict per constant");
-    bigint lhs = bit ? (x | num1) : (x & num1);
+    bigint e = bit ? (x | num1) : (x & num1);          /* the expression operand; num2 is the value of the constant operand */
     /* for | the checker only reasons about unsigned operands; with a signed operand it must stay silent or be right */
-    if (g_reported && op != 6) __CPROVER_assert(c_cmp_s(op, lhs, num2) == g_result, "a reported always-true/false verdict is the value of (X bitop num1) cmp num2 for every X");
+    if (g_reported && op != 6) {
+        __CPROVER_assert(const_side == 1 || const_side == 2, "a verdict is reported only after a constant operand was selected");
+        __CPROVER_assert(KNOWN(const_side), "the operand taken as the constant has a known value");
+        _Bool truth = const_side == 2 ? c_cmp_s(op, e, num2) : c_cmp_s(op, num2, e);
+        __CPROVER_assert(truth == g_result, "a reported always-true/false verdict is the value of the comparison as written, for every X");
+        int rop = op_index(g_rep_op);
+        __CPROVER_assert(rop >= 0 && rop <= 5 && c_cmp_s(rop, e, num2) == g_result, "the reported text `(X bitop num1) OP num2 is always R` is a true statement for every X");
+    }
 }
 /* value set of the variable operand, and the C comparison after the usual arithmetic conversions */
 static _Bool in_type(bigint v, int bits, int sgn) { if (bits >= 64) return sgn ? 1 : v >= 0; return sgn ? (v >=-(bigint)(1ULL << (bits - 1)) && v <= (bigint)((1ULL << (bits - 1)) - 1)) : (v >= 0 && (biguint)v <= (bits >= 64 ? ~0ULL : ((1ULL << bits) - 1))); }
@@ -93,8 +104,12 @@ void h_range(void) {
 }
 void h_cover(void) {
     g_reported = 0; bigint n1 = nondet_bigint(), n2 = nondet_bigint(); __CPROVER_assume(n2 >= 0);
-    comparison_block(n1, n2, "==", 2, "&", 1, 0);
+    int side = 0;
+    comparison_block(0, 1, "==", 2, n1, n2, "&", 1, 0, &side);
     __CPROVER_assert(!(g_reported == 1 && g_result == 0), "COVER: (X & n1) == n2 reported always false");
+    g_reported = 0; side = 0;
+    comparison_block(1, 0, ">", 1, 3, 7, "&", 1, 0, &side);
+    __CPROVER_assert(!(g_reported == 1 && side == 1 && g_result == 1), "COVER: 7 > (X & 3) reported always true (constant on the left)");
     struct Platform pl; pl.char_bit = 8; pl.short_bit = 16; pl.int_bit = 32; pl.long_bit = 64; pl.long_long_bit = 64; _Bool e = 0, r = 0; uint8_t b = 0;
     range_block(VType_CHAR, Sign_UNSIGNED, 1, Sign_SIGNED, &pl, nondet_bigint(), "<", 1, 1, &e, &r, &b);
     __CPROVER_assert(!(e && r), "COVER: unsigned char < constant reported always true");
@@ -140,14 +155,48 @@ def build(ctx):
     kb.add_located("CheckCondition::comparison [verdict block per constant]", reg, "region")
     t, k = located_rules(reg, [
         (r'\bcontinue\s*;', 'return;', 1, 1),
-        (r'Token::Match\(tok,\s*("(?:[^"\\]|\\.)*")\)', r'op_in(op, op_len, \1)', 5),
         (r'expr1->str\(\)\s*==\s*("[&|]")', r'vstr_eq(bitop, bitop_len, \1)', 4),
-        (r'const std::string\s*&\s*op\(tok->str\(\)\)\s*;', '', 3),
         (r'\(expr1->astOperand1\(\)->valueType\(\)\)\s*&&\s*\(expr1->astOperand1\(\)->valueType\(\)->sign\s*==\s*ValueType::Sign::UNSIGNED\)', 'lhs_unsigned', 1, 1),
         (r'comparisonError\(expr1,\s*expr1->str\(\),\s*num1,\s*op,\s*num2,\s*([^;]*)\)\s*;', r'REPORT(\1);', 5),
-        (r'\bop != "=="', '!vstr_eq(op, op_len, "==")', 1, 1),
+        (r'\bop != ("(?:[^"\\]|\\.)*")', r'!vstr_eq(op, op_len, \1)', 1),
+        (r'\bop == ("(?:[^"\\]|\\.)*")', r'vstr_eq(op, op_len, \1)', 8),
     ], ID + ".comparison"); n += k
-    out.append("void comparison_block(const bigint num1, const bigint num2, const char *op, size_t op_len, const char *bitop, size_t bitop_len, _Bool lhs_unsigned)\n{\n%s\n}\n" % extract.strip_comments(t))
+    if re.search(r'\btok\b|Token::', extract.mask(t)):
+        raise extract.ExtractError("comparison(): the verdict block reads the operator token directly (expected: the local `op`): %r" % re.findall(r'[^\n]*(?:\btok\b|Token::)[^\n]*', extract.mask(t))[:2])
+    verdict = extract.strip_comments(t)
+    # operand selection: which operand is the constant, and the operator as seen with the constant on the right
+    ms = list(re.finditer(r'const\s+Token\s*\*\s*expr1\s*=\s*tok->astOperand1\(\)\s*;', mb))
+    me = list(re.finditer(r'if\s*\(\s*!compareTokenFlags\(', mb))
+    if len(ms) != 1 or len(me) != 1 or not ms[0].start() < me[0].start() < hs[0].start():
+        raise extract.ExtractError("comparison(): operand selection (`const Token *expr1 = tok->astOperand1();` ... `if (!compareTokenFlags(`) not found")
+    sel = extract.Located("lib/checkcondition.cpp", f.text[ms[0].start():me[0].start()], f.start + ms[0].start(), f.start + me[0].start(), extract.read("lib/checkcondition.cpp"))
+    kb.add_located("CheckCondition::comparison [operand selection]", sel, "region")
+    # between the selection and the verdict loop: only the flag comparison, the constant's value, the `&`/`|` test and the collection of the constants
+    mid = " ".join(extract.strip_comments(f.text[me[0].start():hs[0].start()]).split())
+    want_mid = ('if (!compareTokenFlags(expr1, expr2, true)) continue; const MathLib::bigint num2 = expr2->getKnownIntValue(); if (num2 < 0) continue; '
+                'if (!Token::Match(expr1,"[&|]")) continue; std::list<MathLib::bigint> numbers; getnumchildren(expr1, numbers);')
+    if mid.replace(" ", "") != want_mid.replace(" ", ""):
+        raise extract.ExtractError("comparison(): the statements between operand selection and verdict loop changed: %r" % mid[:400])
+    ts, k = located_rules(sel, [
+        (r'const\s+Token\s*\*\s*expr1\s*=\s*tok->astOperand1\(\)\s*;', 'int expr1 = 1;', 1, 1),
+        (r'const\s+Token\s*\*\s*expr2\s*=\s*tok->astOperand2\(\)\s*;', 'int expr2 = 2;', 1, 1),
+        (r'\bcontinue\s*;', 'return;', 2),
+        (r'std::string\s+op\s*=\s*tok->str\(\)\s*;', 'char op[4]; size_t op_len = tokop_len; for (size_t i_ = 0; i_ < 4; i_++) op[i_] = i_ < tokop_len ? tokop[i_] : 0;', 1, 1),
+        (r'\bexpr([12])->hasKnownIntValue\(\)', r'KNOWN(expr\1)', 2, 2),
+        (r'std::swap\(expr1,\s*expr2\)\s*;', '{ int t_ = expr1; expr1 = expr2; expr2 = t_; }', 1, 1),
+        (r'\bop\s*=\s*invertOperatorForOperandSwap\(op\)\s*;', 'invertOperatorForOperandSwap(op);', 0, 1),
+    ], ID + ".select"); n += k
+    if re.search(r'\btok\b|Token|std::', extract.mask(ts)):
+        raise extract.ExtractError("comparison(): operand selection not fully lowered: %r" % ts[:300])
+    fi = extract.locate_function("lib/checkcondition.cpp", r'^static std::string invertOperatorForOperandSwap\s*\(\s*std::string s\s*\)')
+    kb.add_located("invertOperatorForOperandSwap", fi)
+    ti, k = located_rules(fi, [
+        (r'^static std::string invertOperatorForOperandSwap\s*\(\s*std::string s\s*\)', 'static void invertOperatorForOperandSwap(char *s)', 1, 1),
+        (r'\breturn s\s*;', 'return;', 1, 1),
+    ], ID + ".invert"); n += k
+    out.append(ti + "\n")
+    out.append("void comparison_block(_Bool known1, _Bool known2, const char *tokop, size_t tokop_len, const bigint num1, const bigint num2, const char *bitop, size_t bitop_len, _Bool lhs_unsigned, int *const_side)\n"
+               "{\n%s\n    *const_side = expr2;\n%s\n}\n" % (extract.strip_comments(ts), verdict))
     # ---- K22
     reg = extract.locate_region("lib/checkcondition.cpp", r'^void CheckCondition::checkCompareValueOutOfTypeRange\s*\(\s*\)', r'std::uint8_t\s+bits\s*=\s*0\s*;',
                                 r'if\s*\(\s*!error\s*\|\|\s*diag\(tok\)\s*\)', include_end=False)
